@@ -3,11 +3,15 @@
 
   Proved here: where the help generator can panic at all (one place per row: the padding
   between the option column and the description) and the exact condition; that the condition
-  is about *characters* (after D3); structural facts about the wrapper.  The geometric
-  statements over whole help texts (common column, width bound, words preserved) are carried by
-  the byte-exact correspondence and the geometry oracles of the harness, not yet by theorems.
+  is about *characters* (after D3); and the two geometric theorems about the wrapper, for every
+  text and width: no output line is longer than the width, in characters, the inserted hyphen
+  included (`wrapSegs_width`), and nothing but white space is lost or reordered
+  (`wrapSegs_preserves`) — with their corollary for one input line (`wrapLine_pieces`).  The
+  alignment of whole help texts on a common column is carried by the byte-exact correspondence
+  and the geometry oracles of the harness, not by a theorem.
 -/
 import GoFlags.Help
+import GoFlags.Lemmas.WrapLemmas
 
 namespace GoFlags.C17
 open GoFlags Bytes
@@ -81,5 +85,151 @@ theorem continuation_lines_get_prefix (l : Nat) (pfx line : Bytes) :
 /-- the wrapper looks for a blank only inside the first `l` characters -/
 theorem break_search_window (n : Nat) (s : Bytes) (st en : Nat) :
     (charSpan (n + 1) s st en) = charSpan n (s.drop (decodeRune s).2) en (en + (decodeRune s).2) := rfl
+
+/-! ### The wrapper, for every text and width -/
+
+/-- **Width**: no output line of `wrapText` is longer than the width (counted in characters, the
+    inserted hyphen included), for every text, every width of at least one character, and however
+    many lines it takes. -/
+theorem wrapSegs_width (l : Nat) (hl : 1 ≤ l) (fuel : Nat) : ∀ (line : Bytes) (seg : Seg),
+    seg ∈ wrapSegs l fuel line → runeCount seg.text + (if seg.hard then 1 else 0) ≤ l := by
+  induction fuel with
+  | zero => intro line seg h; simp [wrapSegs] at h
+  | succ fuel ih =>
+    intro line seg h
+    unfold wrapSegs at h
+    split at h
+    · next hgt =>
+      obtain ⟨l', rfl⟩ : ∃ l', l = l' + 1 := ⟨l - 1, by omega⟩
+      rw [charSpan_eq] at h
+      simp only [Nat.zero_add] at h
+      have hb1 := runes_at_offset (l' + 1) line (by omega)
+      have hb0 := runes_at_offset l' line (by omega)
+      split at h
+      · next pos hpos =>
+        rcases List.mem_cons.mp h with rfl | h
+        · -- a soft break: the piece ends before a blank inside the first l characters
+          simp only [Bool.false_eq_true, if_false, Nat.add_zero]
+          obtain ⟨post, hsp, hlt⟩ := lastIndexSpace_spec _ _ hpos
+          have hpre : line.take pos = (line.take (runeOffset (l' + 1) line)).take pos := by
+            rw [List.take_take]; congr 1
+            simp only [List.length_take] at hlt; omega
+          have hcount : runeCount (line.take pos) + 1 ≤ l' + 1 := by
+            have h1 : runes (line.take (runeOffset (l' + 1) line)) =
+                runes (line.take pos) ++ runes (0x20 :: post) := by
+              conv => lhs; rw [hsp]
+              rw [← hpre]
+              exact runes_append_noncont _ 0x20 post (by decide)
+            have h2 : (runes (line.take (runeOffset (l' + 1) line))).length ≤ l' + 1 := by
+              rw [hb1.1]; simp; omega
+            rw [h1, runes_ascii 0x20 post (by decide)] at h2
+            simp only [List.length_append, List.length_cons] at h2
+            unfold runeCount; omega
+          have := runeCount_trimSpace_le (line.take pos)
+          omega
+        · exact ih _ _ h
+      · rcases List.mem_cons.mp h with rfl | h
+        · -- a hard break: l - 1 characters and the hyphen
+          simp only [if_true]
+          have : runeCount (line.take (runeOffset l' line)) ≤ l' := by
+            unfold runeCount; rw [hb0.1]; simp; omega
+          have := runeCount_trimSpace_le (line.take (runeOffset l' line))
+          omega
+        · exact ih _ _ h
+    · next hle =>
+      split at h
+      · simp at h
+      · simp only [List.mem_cons, List.mem_nil_iff, or_false] at h
+        subst h
+        simp only [Bool.false_eq_true, if_false, Nat.add_zero]
+        omega
+
+
+/-- **Nothing is lost or reordered**: the characters of the pieces `wrapText` cuts a line into,
+    white space aside, are the characters of the line, in order — for every line that does not
+    start with a blank (lines are trimmed first), every width of at least two characters, and
+    however many pieces it takes. -/
+theorem wrapSegs_preserves (l : Nat) (hl : 2 ≤ l) (fuel : Nat) : ∀ (line : Bytes),
+    line.length < fuel → line.head? ≠ some 0x20 →
+    (wrapSegs l fuel line).flatMap (fun seg => nonSpace (runes seg.text)) = nonSpace (runes line) := by
+  induction fuel with
+  | zero => intro line h _; omega
+  | succ fuel ih =>
+    intro line hfuel hhead
+    unfold wrapSegs
+    split
+    · next hgt =>
+      obtain ⟨l', rfl⟩ : ∃ l', l = l' + 1 := ⟨l - 1, by omega⟩
+      rw [charSpan_eq]
+      simp only [Nat.zero_add]
+      have hne : line ≠ [] := by intro e; subst e; simp [runeCount, runes_nil] at hgt
+      split
+      · next pos hpos =>
+        obtain ⟨post, hsp, hlt⟩ := lastIndexSpace_spec _ _ hpos
+        have hposlt : pos < line.length := by simp only [List.length_take] at hlt; omega
+        have hpre : line.take pos = (line.take (runeOffset (l' + 1) line)).take pos := by
+          rw [List.take_take]; congr 1
+          simp only [List.length_take] at hlt; omega
+        -- the byte at pos is a blank, so pos is not 0 and is a character boundary
+        have hdrop : line.drop pos = 0x20 :: (line.drop pos).tail := by
+          have h1 : (line.take (runeOffset (l' + 1) line)).drop pos = 0x20 :: post := by
+            have hlen : (List.take pos (List.take (runeOffset (l' + 1) line) line)).length = pos := by
+              rw [List.length_take]; omega
+            conv => lhs; rw [hsp]
+            rw [List.drop_append_of_le_length (by rw [hlen]; exact Nat.le_refl _)]
+            simp
+          have h2 : (line.take (runeOffset (l' + 1) line)).drop pos = (line.drop pos).take (runeOffset (l' + 1) line - pos) := by
+            rw [List.drop_take]
+          rw [h2] at h1
+          cases hq : line.drop pos with
+          | nil => rw [hq] at h1; simp at h1
+          | cons c r =>
+            rw [hq] at h1
+            cases hk : runeOffset (l' + 1) line - pos with
+            | zero => rw [hk] at h1; simp at h1
+            | succ k => rw [hk] at h1; simp at h1; rw [h1.1]; rfl
+        have hpos0 : pos ≠ 0 := by
+          intro e; subst e
+          simp only [List.drop_zero] at hdrop
+          rw [hdrop] at hhead; simp at hhead
+        have hsplit : runes line = runes (line.take pos) ++ runes (line.drop pos) := by
+          conv => lhs; rw [← List.take_append_drop pos line, hdrop]
+          rw [runes_append_noncont _ 0x20 _ (by decide), ← hdrop]
+        simp only [List.flatMap_cons]
+        rw [nonSpace_trimSpace]
+        rw [ih (trimSpace (line.drop pos)) (by
+          have := trimSpace_length_le (line.drop pos)
+          simp only [List.length_drop] at this; omega) (trimSpace_head _)]
+        rw [nonSpace_trimSpace, hsplit]
+        unfold nonSpace
+        rw [List.filter_append]
+      · -- a hard break at a character boundary
+        have hb0 := runes_at_offset l' line (by omega)
+        have hoff : 0 < runeOffset l' line := runeOffset_pos l' line (by omega) hne
+        simp only [List.flatMap_cons]
+        rw [nonSpace_trimSpace]
+        rw [ih (trimSpace (line.drop (runeOffset l' line))) (by
+          have := trimSpace_length_le (line.drop (runeOffset l' line))
+          have hlp : 0 < line.length := List.length_pos_iff.mpr hne
+          simp only [List.length_drop] at this; omega) (trimSpace_head _)]
+        rw [nonSpace_trimSpace, hb0.1, hb0.2]
+        unfold nonSpace
+        rw [← List.filter_append, List.take_append_drop]
+    · split
+      · next he => subst he; simp [runes_nil, nonSpace]
+      · simp
+
+/-- one input line of `wrapText`: it is trimmed, cut with enough fuel for its length, and every
+    piece fits while the pieces together carry exactly its non-blank characters -/
+theorem wrapLine_pieces (l : Nat) (hl : 2 ≤ l) (line : Bytes) :
+    (∀ seg ∈ wrapSegs l ((trimSpace line).length + 1) (trimSpace line),
+        runeCount seg.text + (if seg.hard then 1 else 0) ≤ l) ∧
+    (wrapSegs l ((trimSpace line).length + 1) (trimSpace line)).flatMap (fun seg => nonSpace (runes seg.text)) =
+      nonSpace (runes line) := by
+  refine ⟨fun seg h => wrapSegs_width l (by omega) _ _ seg h, ?_⟩
+  rw [wrapSegs_preserves l hl _ _ (Nat.lt_succ_self _) (trimSpace_head line), nonSpace_trimSpace]
+
+/-- the width `wrapText` works with is never below 10, so the two theorems above apply -/
+example (l : Int) : 2 ≤ (if l < 10 then 10 else l.toNat) := by split <;> omega
 
 end GoFlags.C17
